@@ -11,7 +11,7 @@ import vlib
 
 HERE = os.path.dirname(os.path.abspath(__file__))
 PROOFS = ["MgProof.C12.Lemmas", "MgProof.C12.LemmasStream", "MgProof.C12.LemmasAes", "MgProof.C12.LemmasAesKey",
-          "MgProof.C12.LemmasDes", "MgProof.C12.LemmasApi", "MgProof.C12.Props", "MgProof.C12.Kat"]
+          "MgProof.C12.LemmasDes", "MgProof.C12.LemmasExtra", "MgProof.C12.LemmasApi", "MgProof.C12.Props", "MgProof.C12.Kat"]
 GREP = ["MgModel/C12", "MgProof/C12", "MgModel/Common", "Drv/C12.lean"]
 REPO_SRCS = ["muggle/c/crypt/aes.c", "muggle/c/crypt/des.c", "muggle/c/crypt/tdes.c",
              "muggle/c/crypt/parity.c", "muggle/c/crypt/crypt_utils.c",
@@ -206,6 +206,12 @@ def gen_exhaustive(ctx):
                     msg = bytes((i * 37 + 11) & 0xff for i in range(n))
                     for cut in range(0, n + 1, step):
                         cases.append(roundtrip_case(alg, mode, d, key, iv, msg, [(0, cut), (cut, n)]))
+                    # thorough: every 3-chunk split of the short messages (stream modes)
+                    if not ctx.quick and step == 1 and n <= bs + 2:
+                        for c1 in range(0, n + 1):
+                            for c2 in range(c1, n + 1):
+                                cases.append(roundtrip_case(alg, mode, d, key, iv, msg,
+                                                            [(0, c1), (c1, c2), (c2, n)]))
     return cases
 
 
@@ -214,7 +220,7 @@ def gen_random(ctx):
     directions, plus sessions that start in the middle of a block."""
     rng = ctx.rng
     cases = []
-    n_rt = 700 if ctx.quick else 5000
+    n_rt = 700 if ctx.quick else 12000
     maxlen_p = [(0.80, 300), (0.95, 1100), (1.0, 4096)]
     for _ in range(n_rt):
         alg = rng.choice(ALGS)
@@ -232,7 +238,7 @@ def gen_random(ctx):
         sb = struct_bytes(rng, bs_of(alg)) if rng.random() < 0.3 else None
         cases.append(roundtrip_case(alg, mode, rng.choice([1, 1, 0]), key, iv, msg, parts, sb=sb))
     # sessions entered with a non-zero offset (state carried over from elsewhere): model only
-    for _ in range(150 if ctx.quick else 1200):
+    for _ in range(150 if ctx.quick else 3000):
         alg = rng.choice(ALGS)
         mode = rng.choice([2, 3, 4])
         bs = bs_of(alg)
@@ -434,7 +440,8 @@ def main(ctx):
     ctx.assumptions += TRUSTED[2:]
     ctx.cov["rule"] = (
         "known-answer vectors of FIPS-197 / SP 800-38A / DES + corpus; bounded-exhaustive: every "
-        "algorithm(5) x mode(5) x direction(2) x length 0..L x every 2-chunk split, round trip; seeded "
+        "algorithm(5) x mode(5) x direction(2) x length 0..L x every 2-chunk split (thorough: also every "
+        "3-chunk split of the short messages), round trip; seeded "
         "random: structured keys (zero/ones/single-bit/weak+semi-weak DES/degenerate 3DES), IVs (incl. "
         "counter overflow), messages 0..4096 bytes, 1..8 chunks (empty chunks allowed), both directions, "
         "each followed by the inverse direction in one call; sessions entered at a non-zero offset; "
